@@ -114,7 +114,7 @@ func VerdictDependence(p *core.Program, r *core.Report, rule string) {
 			r.Bad(rule, fd.Key()+": has a positive answer inside the port loop", p.Pos(fd.Decl.Pos()), "no `return true` inside the loop over the rule's ports was found")
 		}
 	}
-	r.Floor(rule, 4)
+	r.Floor(rule, 2) // a floor against vacuity, not a count: merging duplicated per-port calls is ordinary maintenance
 }
 
 // AlwaysAllowedParity is C03-d: list and eval apply the same always-allowed
